@@ -21,6 +21,7 @@ import sys
 sys.path.insert(0, os.path.dirname(os.path.dirname(os.path.abspath(__file__))))
 import common  # noqa: E402
 import gen_c15  # noqa: E402
+import gen_c17  # noqa: E402
 import translate_c17  # noqa: E402
 
 KINDS = ["seq", "thr", "loky", "mp"]
@@ -61,21 +62,21 @@ Import ListNotations. Open Scope Z_scope."""
 DEFS_COMMON = """Definition showr (r : result Z) : list Z :=
   match r with Ok v => [0; v] | Raise ValueError => [1; 0] | Raise _ => [2; 0] end.
 Definition kz (k : kind) : Z := match k with KSeq => 0 | KThr => 1 | KLoky => 2 | KMp => 3 end.
-Fixpoint chain_outcomes (s : site) (l : list (option kind * Z)) : list (list Z) :=
+Fixpoint chain_outcomes (s : site) (l : list (option kind * hint * Z)) : list (list Z) :=
   match l with
   | [] => []
-  | (bs, n) :: t =>
-      match call_outcome s bs n with
+  | (bs, h, n) :: t =>
+      match call_outcome s bs h n with
       | Raise _ => [[-1; 0; 0]]
       | Ok (bk, eff) => [kz (bkind bk); blevel bk; eff] :: chain_outcomes (worker_site s bk) t
       end
   end.
-Fixpoint mk_tree (l : list (option kind * Z * nat)) : list call :=
+Fixpoint mk_tree (l : list (option kind * hint * Z * nat)) : list call :=
   match l with
   | [] => []
-  | (bs, n, m) :: t => [Call bs n (concat (repeat (mk_tree t) m))]
+  | (bs, h, n, m) :: t => [Call bs h n (concat (repeat (mk_tree t) m))]
   end.
-Definition tree_procs (cpus : Z) (l : list (option kind * Z * nat)) : Z :=
+Definition tree_procs (cpus : Z) (l : list (option kind * hint * Z * nat)) : Z :=
   match mk_tree l with c :: _ => procs (top_site cpus) c | [] => 0 end."""
 
 
@@ -222,11 +223,32 @@ def canon_r(r):
 
 
 # ------------------------------------------------------------------------ nested real runs
+HINTS = {None: (None, None, 0, 0), "processes": ("processes", None, 2, 0), "threads": ("threads", None, 1, 0),
+         "sharedmem": (None, "sharedmem", 0, 1)}
+
+
+def lvl(l):
+    """(backend, n_jobs, ntasks, hint) with hint optional"""
+    return (l[0], l[1], l[2], l[3] if len(l) > 3 else None)
+
+
 def mk_tree(levels):
     t = None
-    for bk, n, m in reversed(levels):
-        t = {"backend": bk, "n_jobs": n, "ntasks": m, "child": t}
+    for l in reversed(levels):
+        bk, n, m, hint = lvl(l)
+        t = {"backend": bk, "n_jobs": n, "ntasks": m, "child": t, "prefer": HINTS[hint][0], "require": HINTS[hint][1]}
     return t
+
+
+def coq_hint(hint):
+    return "{| h_prefer := %d; h_require := %d |}" % HINTS[hint][2:4]
+
+
+def chain_expr(lv, cpus):
+    sel = lambda l: "None" if l[0] is None else "Some " + KCOQ[BNAME[l[0]]]
+    return "(chain_outcomes (top_site %d) [%s], tree_procs %d [%s])" % (
+        cpus, "; ".join("(%s, %s, %s)" % (sel(l), coq_hint(lvl(l)[3]), z(l[1])) for l in lv),
+        cpus, "; ".join("(%s, %s, %s, %d%%nat)" % (sel(l), coq_hint(lvl(l)[3]), z(l[1]), l[2]) for l in lv))
 
 
 def nested_guard_trees(rng, quick, full=False):
@@ -247,6 +269,22 @@ def nested_guard_trees(rng, quick, full=False):
     return out
 
 
+def hint_trees(rng, quick, full=False):
+    """outer in {loky(default), threading, multiprocessing} x inner hint x inner n_jobs, inner backend left to the defaults"""
+    combos = [(o, hnt, n) for o in (None, "threading", "multiprocessing") for hnt in (None, "processes", "threads", "sharedmem")
+              for n in (2, 3, -1, None)]
+    if not full:
+        must = [c for c in combos if c[1] == "processes" and c[2] == 2]
+        rest = [c for c in combos if c not in must]
+        rng.shuffle(rest)
+        combos = must + rest[:3 if quick else 20]
+    out = [[(o, 2, 3), (None, n, 3, hnt)] for o, hnt, n in combos]
+    out.append([(None, 2, 3, "processes"), (None, 2, 3, "processes"), (None, 2, 2, "processes")])
+    out.append([(None, 2, 3, "threads")])
+    out.append([(None, 2, 3, "sharedmem"), ("loky", 2, 2)])
+    return out
+
+
 def gen_trees(rng, quick):
     names = [None, "threading", "loky", "multiprocessing", "sequential"]
     shape = [(2, 4), (2, 3), (2, 3)]   # (n_jobs, tasks): always more tasks than workers
@@ -256,6 +294,7 @@ def gen_trees(rng, quick):
              [(None, 2, 3), ("threading", 1, 2)], [("threading", 3, 5), ("threading", 1, 2), (None, 2, 2)],
              [(None, 2, 3), (None, None, 3)], [("threading", 2, 3), (None, None, 3)]]
     trees += nested_guard_trees(rng, quick)
+    trees += hint_trees(rng, quick)
     for a in names:
         for b_ in names:
             trees.append([(a,) + shape[0], (b_,) + shape[1]])
@@ -359,12 +398,33 @@ def judge_tree(levels, run, model_chain, model_procs):
         if "raise" in c and not (c["raise"] == "ValueError" and asked_n == 0):
             bad.append("nested call %s (backend=%s, n_jobs=%s) raised %s" % (c["path"], levels[depth][0], asked_n, c["raise"]))
             continue
-        if parent is None or "kind" not in parent or "kind" not in c or parent.get("eff", 1) <= 1:
+        if parent is None or "kind" not in parent or "kind" not in c:
             continue
-        if parent["kind"] in ("ThreadingBackend", "MultiprocessingBackend") and c["kind"] in ("LokyBackend", "MultiprocessingBackend"):
+        ancestors = [by_path.get(c["path"].rsplit(".", k)[0]) for k in range(1, c["path"].count(".") + 1)]
+        in_worker = any(a is not None and a.get("eff", 1) > 1 for a in ancestors)
+        if not in_worker:
+            continue      # every enclosing call ran sequentially in the caller's thread: this is still a top-level call
+        if parent.get("eff", 1) <= 1:
+            parent = next(a for a in ancestors if a is not None and a.get("eff", 1) > 1)
+        hint = lvl(levels[depth])[3]
+        if levels[depth][0] is None and c["kind"] in ("LokyBackend", "MultiprocessingBackend"):
+            # by default (no backend named) a call nested inside a worker never starts worker processes, whatever hint it passes
+            bad.append("default-backend call %s (hint %s, n_jobs=%s) nested in a worker of a %s call resolved to %s with %d "
+                       "workers: process fan-out below a worker" % (c["path"], hint, asked_n, parent["kind"], c["kind"], c["eff"]))
+        elif hint in ("threads", "sharedmem") and levels[depth][0] is None and c["kind"] not in ("ThreadingBackend", "SequentialBackend"):
+            bad.append("call %s with hint %s runs on %s" % (c["path"], hint, c["kind"]))
+        elif parent["kind"] in ("ThreadingBackend", "MultiprocessingBackend") and c["kind"] in ("LokyBackend", "MultiprocessingBackend"):
             bad.append("call %s (backend=%s, n_jobs=%s) made from a worker of a %s call resolved to %s with %d workers: "
                        "nested worker processes" % (c["path"], levels[depth][0], asked_n, parent["kind"], c["kind"], c["eff"]))
-    default = all(l[0] is None for l in levels)
+    for c in calls:
+        anc = [by_path.get(c["path"].rsplit(".", k)[0]) for k in range(1, c["path"].count(".") + 1)]
+        if "." in c["path"] and "kind" in c and levels[c["path"].count(".")][0] is None \
+                and any(a is not None and a.get("eff", 1) > 1 for a in anc):
+            tp = {e["pid"] for e in ev if e["e"] == "S" and e["call"] == c["path"]}
+            if tp and tp != {c["pid"]}:
+                bad.append("tasks of the nested default-backend call %s ran in pids %s, not in its worker's pid %d" % (
+                    c["path"], sorted(tp), c["pid"]))
+    default = all(l[0] is None and lvl(l)[3] in (None, "processes") for l in levels)
     if default:
         # "the first nesting level runs on threads and deeper levels run sequentially" (below a call that went parallel)
         par = {c["path"] for c in calls if c.get("eff", 1) > 1}
@@ -501,7 +561,7 @@ def search_failing(ctx):
     # judged by the oracle rules that need no model (high-water, pids, "no worker processes below a worker")
     trees = [[(None, 3, 5), (None, 2, 3), (None, 2, 3)], [(None, 2, 4)], [("threading", 2, 3), ("threading", 2, 3), (None, 2, 3)],
              [("threading", 1, 2)], [("loky", 1, 2)], [("multiprocessing", 2, 4)], [(None, 2, 3), (None, None, 3)],
-             [("threading", 2, 3), (None, None, 3)]] + nested_guard_trees(ctx.rng, True, full=True)
+             [("threading", 2, 3), (None, None, 3)]] + hint_trees(ctx.rng, True, full=True) + nested_guard_trees(ctx.rng, True, full=True)
     import concurrent.futures as cf
     with cf.ThreadPoolExecutor(6) as ex:
         runs = list(ex.map(lambda it: run_tree(ctx, 7000 + it[0], it[1]), list(enumerate(trees))))
@@ -539,7 +599,8 @@ def run(ctx):
     translator_ok = True
     gens = [(gen_c15.generate, "T_njobs", "effective_n_jobs / cpu_count"),
             (gen_c15.generate_nested, "T_nested", "get_nested_backend / configure / pool construction"),
-            (gen_c15.generate_executor, "T_executor", "_resize / get_reusable_executor / get_memmapping_executor decisions")]
+            (gen_c15.generate_executor, "T_executor", "_resize / get_reusable_executor / get_memmapping_executor decisions"),
+            (gen_c17.generate_active_backend, "T_active_backend", "_get_active_backend")]
     rejected = set()
     for gen, fname, label in gens:
         try:
@@ -710,14 +771,11 @@ Definition showc (r : result Z) (pool : Z) : list Z :=
     trees = gen_trees(ctx.rng, quick)
     reuse = gen_reuse(ctx.rng, quick, real_cpus)
     import concurrent.futures as cf
-    with cf.ThreadPoolExecutor(6) as ex:
+    with cf.ThreadPoolExecutor(8) as ex:
         fut_reuse = [ex.submit(run_tree, ctx, 5000 + i, None, 180, sp) for i, sp in enumerate(reuse)]
         runs = list(ex.map(lambda it: run_tree(ctx, it[0], it[1]), list(enumerate(trees))))
         reuse_runs = [f.result() for f in fut_reuse]
-    chain_exprs = ["(chain_outcomes (top_site %d) [%s], tree_procs %d [%s])" % (
-        real_cpus, "; ".join("(%s, %s)" % ("None" if l[0] is None else "Some " + KCOQ[BNAME[l[0]]], z(l[1])) for l in lv),
-        real_cpus, "; ".join("(%s, %s, %d%%nat)" % ("None" if l[0] is None else "Some " + KCOQ[BNAME[l[0]]], z(l[1]), l[2]) for l in lv))
-        for lv in trees]
+    chain_exprs = [chain_expr(lv, real_cpus) for lv in trees]
     chain_vals = ctx.coq_eval_lines(REQ_MODEL_ONLY, DEFS_COMMON, chain_exprs, name="c15_chain")
     n_model += len(chain_vals)
     nest_stats = {"trees": len(trees), "inconclusive": 0, "calls": 0, "barrier_timeouts": 0, "max_worker_pids": 0}
@@ -878,9 +936,7 @@ def replay(ctx, path):
         if "inconclusive" in rr:
             print("replay inconclusive:", rr["inconclusive"])
             return 1
-        expr = "(chain_outcomes (top_site 16) [%s], tree_procs 16 [%s])" % (
-            "; ".join("(%s, %s)" % ("None" if l[0] is None else "Some " + KCOQ[BNAME[l[0]]], z(l[1])) for l in lv),
-            "; ".join("(%s, %s, %d%%nat)" % ("None" if l[0] is None else "Some " + KCOQ[BNAME[l[0]]], z(l[1]), l[2]) for l in lv))
+        expr = chain_expr(lv, 16)
         chain, procs = parse(ctx.coq_eval_lines(REQ_MODEL_ONLY, DEFS_COMMON, [expr], name="c15_replay")[0])
         bad, _, st = judge_tree(lv, rr, chain, procs)
         print("replay nested run:", lv, "=>", bad or "property holds", st)
